@@ -214,15 +214,15 @@ func proofKey(p base.SuffrageProof) string {
 
 // BlockShape: what the generator decides about a block; NewBlock fills in ids and real objects.
 type BlockShape struct {
-	H       int64
-	Keys    []int   // ordinary state keys (distinct, >= 2)
-	KeyOps  [][]int // in-state operation ids per ordinary state
-	Suf     bool
-	SH      int64 // suffrage height when Suf
-	SufOps  []int
-	Pol     bool
-	PolOps  []int
-	Known   []int
+	H      int64
+	Keys   []int   // ordinary state keys (distinct, >= 2)
+	KeyOps [][]int // in-state operation ids per ordinary state
+	Suf    bool
+	SH     int64 // suffrage height when Suf
+	SufOps []int
+	Pol    bool
+	PolOps []int
+	Known  []int
 }
 
 func (w *World) NewBlock(s BlockShape) *Blk {
